@@ -169,7 +169,7 @@ def exec (a : Arch) (progLen : Nat) (op : String) (body : Bits) (s : VmState) : 
 /-- opcodes with a modelled `Simulate` -/
 def modelled : List String :=
   ["nop", "rset", "inc", "dec", "clr", "add", "mult", "div", "cpy", "and", "or", "xor", "nand", "nor",
-   "xnor", "not", "mod", "j", "jz", "i2r", "r2o", "i2rw", "r2owa", "addp", "multp", "divp"]
+   "xnor", "not", "mod", "j", "jz", "i2r", "r2o", "i2rw", "r2owa", "addp", "multp", "divp", "ro2rri"]
 
 /-- `VM.Step` (DelayCounter = 0). `none` = Step returns an error or the Go code panics. -/
 def step (a : Arch) (prog : List Bits) (s : VmState) : Option VmState :=
@@ -183,6 +183,47 @@ def step (a : Arch) (prog : List Bits) (s : VmState) : Option VmState :=
       match a.ops[idx]? with
       | none => none
       | some op => exec a prog.length op (w.drop a.opBits) s1
+
+/-! ### `ro2rri`: reading the ROM as data
+
+`Ro2rri.Simulate` reads the ROM cell whose address is in the source register — a program word
+(`Program.Slocs`) or, past the program, a data word (`Data.Vars`) — and keeps its low
+`min Rsize wordSize` bits.  The ROM contents are a parameter of this step only, so the rest of the
+model (and everything proved about it) is unchanged: `stepRom` is `step` with one more opcode. -/
+
+/-- `none` = the Go code returns an error or panics (cell past the data, word shorter than the first one) -/
+def execRom (a : Arch) (prog data : List Bits) (op : String) (body : Bits) (s : VmState) : Option VmState :=
+  if op = "ro2rri" then
+    if a.rsize > 64 then none                               -- "invalid register size, must be <= 64"
+    else
+      let kd := field body 0 a.r
+      let ks := field body a.r a.r
+      let W := (prog.headD []).length                       -- len(Slocs[0])
+      let sl := min a.rsize W
+      match s.regs[ks]? with
+      | none => none
+      | some loc =>
+        match (prog ++ data)[loc]? with
+        | none => none                                      -- index out of range
+        | some w =>
+          if w.length < W then none                         -- slice bounds out of range
+          else if kd < s.regs.length then
+            some { s with pc := s.pc + 1, regs := s.regs.set kd (getId ((w.drop (W - sl)).take sl)) }
+          else none
+  else exec a prog.length op body s
+
+/-- `VM.Step` of a machine whose ROM holds `prog` followed by `data` -/
+def stepRom (a : Arch) (prog data : List Bits) (s : VmState) : Option VmState :=
+  if s.pc > prog.length then none
+  else
+    let s1 := runDeferred s
+    match prog[s1.pc]? with
+    | none => some s1
+    | some w =>
+      let idx := getId (w.take a.opBits)
+      match a.ops[idx]? with
+      | none => none
+      | some op => execRom a prog data op (w.drop a.opBits) s1
 
 end Isa
 end BMV
